@@ -47,7 +47,7 @@ verdict), "G" = generator of an input / fault space, "A" = acceptor used for tra
 | `fanout` | `Fanout` (I: publisher, joiners, consumer goroutines, closer, stoppers, replacement; named deviations FixWake / FixAttach / FixCount / FixJoin), `FanoutProp` (P), `MCFanout` (invariants, edge classes), `FanoutTrace` (A, API level), `FanoutSteps` (A, step level), `TransportTrace` (A: what real clients of every transport read), `ConvLoop` (I/P: converter goroutine loop vs Close; negative control bare signal), `ConvTrace` (A) | model check + schedule generation + trace validation | `harness/fanout` + `harness/vsched` (goroutines parked at `vhook.At` points, one step at a time) | C01 C02 C03 C04 |
 | `registry` | `Registry` (P: sequential reference model with the statement's clauses as invariants), `RegistRace` (I: two concurrent Regist / GetOrCreate), `RaceTrace` (A) | histories (exhaustive, edge cover, walks), race schedules | `harness/registry` | C05 (and C03's registry leg) |
 | `rtsp` | `RtspSession` (P/I: 20 request kinds x state) | edge cover + walks | `harness/rtspsess` against a live server | C12 |
-| `wire` | `WriteLock` (I: lock protocol, negative controls NoFrameLock / NoRespLock), `BufferedWrite` (I: the shared write buffer at copy / advance, emit / reset grain; negative control flush outside the lock), `WireTrace` (A) | gates at `frame.prefix` / `flush.written` | `harness/c13`, tcp + websocket | C13 |
+| `wire` | `WriteLock` (I: lock protocol, negative controls NoFrameLock / NoRespLock), `BufferedWrite` (I: the shared write buffer at copy / advance, emit / reset grain; negative control flush outside the lock), `PooledWrite` (I: pooled message buffers of the WebSocket writers; negative controls put-before-write, double put), `WireTrace` (A) | gates at `frame.prefix` / `flush.written` / `ws.write` | `harness/c13`, tcp + websocket | C13 |
 | `auth` | `Auth` (P: reference monitor over users, rights as last saved, tokens), `WspJoin` (I/P: WSP channel ids, INIT / store / JOIN; negative controls unbound JOIN / answer before store) | edge cover | `harness/c11`, nine entry points of a live server | C11 |
 | `pull` | `Pull` (P/I: 1940 camera plans) | plan enumeration | `harness/c20` scripted camera | C20 |
 | `depack` | `Depack` (P: must / may receiver over packetisation and fault plans) | plan enumeration | `harness/c06` independent packetiser | C06 |
@@ -179,7 +179,9 @@ enumerated; this section only records where the build differs from the design.
 * **C03** additionally has a converter leg: `ConvLoop.tla` (loop / Close protocol of the three conversion goroutines,
   bare signal as negative control) and the schedule "Close between the loop condition and Pop" forced on the real
   converters through the hook `conv.loop` - a genuine defect, fixed in 2c6d1fe.
-* **C06** as designed plus sender-report leg, sequence wrap placed inside plans, RTP time 0 and 2^32 crossing.
+* **C06** as designed plus sender-report leg, sequence wrap placed inside plans, RTP time 0 and 2^32 crossing, and (after
+  seed C06-6) thirteen short demuxer lifetimes with the RTP timestamps of a stream with B pictures (neighbouring
+  presentation times swapped, so timestamps also go backwards) crossing the 32-bit boundary after 1..12 access units.
 * **C07** `Contain.tla` models stage-wise recovery (item / once / none) instead of a per-fault-class liveness
   model; the fault space is in `FaultCases.tla` / `HostileCases.tla`; level is `model_checking` (the design said
   fault_enumeration: the enumeration is still the bulk, but the containment design itself is model checked with
@@ -195,6 +197,16 @@ enumerated; this section only records where the build differs from the design.
   '..' under a single-level-wildcard right, WSP sockets opened under a right that is narrowed before PLAY, paths
   percent-encoded twice; `WspJoin.tla` is the design model of the channel pairing (two negative controls).
 * **C12, C13** as designed; the buffered flush is modelled in `BufferedWrite.tla` (added late), the flush gate is in the harness.
+  Added in the last round: `PooledWrite.tla` (ownership of the pooled message buffers of the WebSocket writers, three
+  negative controls) with the hook `ws.write`; C12's sequences also run over RTSP-over-WebSocket (the stream a DESCRIBE
+  names is then the ws:// path, by design - the mapping is stated in the check's assumptions); the publisher of the C13 /
+  C12 drivers now also sends audio the players did not set up, which exposed a genuine defect (an empty WebSocket message
+  per packet of a channel that is not set up, fixed in d891ece); WebSocket players that set up the video track only are
+  part of the transport leg, whose acceptor has a C13 clause (every message exactly one frame or response).
+* **C17** lookups run before and after the flush + restart suffix of every history (derived state that a restart would
+  rebuild is otherwise never looked at: seed C17-5), and a free-running leg resolves a path beside in-place updates of the
+  matched directory route (seed C17-4).
+* **C02** scenario `gopsps1` (parameter sets repeated inside a GOP) added after seed C02-6.
 * **C14** `Wire` became `WireReader` (design model) + `WireCases` / `WireFaults` / `RtspWire`; the dispatcher is reached through a verif-only
   export.
 * **C15** `CodecSyntax` became `ParamCases` (branch space) + `ParamProp` (derivations) with bit-exact encoders in
@@ -223,9 +235,13 @@ machinery to catch a change that was missed at first.
 |---|---|---|
 ''' % len(seed_rows) + "\n".join(seed_rows) + '''
 
-Not caught at all: **C13-5** and **C12-5** (a pooled buffer returned before the WebSocket write; needs the pool to hand the same
-buffer to both goroutines, no gate at that place), **C01-6** (a doubly pooled WSP buffer after a failed write; the transport leg supplies the fault and the
-players, the overlap of their delivery goroutines did not occur in six runs). Neutralised: **C11-4** (its scenario exposed
+Every adopted change is caught. The pooled-buffer changes **C13-5**, **C12-5** (a buffer returned to the pool before the
+WebSocket write) and **C01-6** (a buffer pooled twice after a failed write) were missed until the hook `ws.write` (entry
+of the WebSocket message writers) was added: `PooledWrite.tla` models the ownership discipline with these three changes as
+negative controls, C13 parks a response at that point while three players use the shared pool, C12 runs its sequences over
+RTSP-over-WebSocket with responses slowed there, and the C01 transport leg slows every 7th WebSocket message by 300 us so
+that the players' delivery goroutines are not always at the same packet. Seven seed patches (C01-1, C02-1, C02-3, C05-2,
+C05-4, C13-2, C13-6) and C13-5 were rebased onto later `fix:` commits (same change, same verdict). Neutralised: **C11-4** (its scenario exposed
 a genuine defect; with the repair cf92d92 the seeded change no longer lets media through).
 Not caught by the check of its own property: **C01-4** (caught by `bin/check C13 quick`), **C20-6** (caught by `bin/check C03 quick`), **C03-3** (caught by `bin/check C04 quick` as drop-not-aligned; the
 C03 clause needs a schedule the quick tier does not generate) and **C08-2** (caught by `bin/check C02 quick`).
@@ -255,8 +271,9 @@ counterexample that did not reproduce) - never a verdict.
   covered by model drift.
 * C10-1 (a lock narrowed around the segment lookup) is caught by real HTTP concurrency, i.e. probabilistically; a
   gate inside `Playlist.Segment` would make it deterministic and was not added.
-* Pool aliasing between goroutines (seeds C13-5, C01-6) is not caught: it needs two goroutines to receive the same pooled
-  buffer, which the checks neither force (no gate between encode and write) nor observe reliably.
+* Pool aliasing between goroutines is provoked, not forced: the hook `ws.write` widens the window between encoding and
+  writing, but which goroutine receives a buffer that was given back is up to sync.Pool (few Ps and several players make
+  it likely; the three seeded changes of that kind were caught in every run tried).
 * Memory allocated while parsing arbitrary bytes (e.g. a VPS announcing 65535 HRD structures) is observed nowhere.
 * A sender report with an arbitrary clock re-bases presentation times (C06 known finding); HLS then stops cutting
   segments until the time line passes the old position again. This interaction is documented, not checked.
